@@ -136,7 +136,7 @@ def ensure_facts(repo=None, cold=False, want_syn=True):
         # keep the cache small: drop other hashes' facts (they are cheap to rebuild)
         base = os.path.join(CACHE, "facts")
         ents = sorted((os.path.getmtime(os.path.join(base, e)), e) for e in os.listdir(base))
-        for _, e in ents[:-8]:
+        for _, e in ents[:-150]:
             if ".tmp" not in e:
                 shutil.rmtree(os.path.join(base, e), ignore_errors=True)
     if lockf is not None:
